@@ -16,7 +16,8 @@ Python directly on the implementation (r.match on package objects built from the
 Streams: `query` (generated trees: category/package leaves with exact/glob/regex values, negation
 on the wrapper and on the value, other-attribute leaves, atoms, AlwaysBool, Negate, AND/OR/
 exactly-one/at-most-one groupings with negate), `shapes` (systematic two-level shapes around the
-candidate-pruning decisions), `ladder` (every rung of the fast path: alternatives of 0/1/2 exact names
+candidate-pruning decisions), `cross` (ANDs of two/three multi-alternative groups whose
+combinations mix constrained and unconstrained clauses, systematic ordered pairs + random), `ladder` (every rung of the fast path: alternatives of 0/1/2 exact names
 with/without glob/regex/value-negated matchers on each side, on a fully populated repository), `bad` (malformed: non-restriction arguments -> TypeError).
 """
 
@@ -43,6 +44,10 @@ ANCHORS = ["repository/prototype.py::_candidate_restrictions",
            "repository/multiplex.py::tree.itermatch",
            "repository/util.py::SimpleTree",
            "restrictions/util.py::collect_package_restrictions",
+           "restrictions/boolean.py::AndRestriction.iter_dnf_solutions",
+           "restrictions/boolean.py::OrRestriction.iter_dnf_solutions",
+           "restrictions/boolean.py::base.iter_dnf_solutions",
+           "restrictions/restriction.py::Negate",
            "restrictions/values.py::ContainmentMatch.match"]
 
 CATS = ["a", "ab", "b", "ba"]
@@ -284,6 +289,56 @@ def ladder_trees():
     return out
 
 
+def cross_trees():
+    """ANDs of two or three multi-alternative groups (the cross product of iter_dnf_solutions): the
+    alternatives mix category / package / other-attribute / always-true / nested AND / atom / Negate
+    members, so that some COMBINATIONS leave category and/or package unconstrained while others pin
+    them.  Every ordered pair of distinct groups (the order decides which combinations an incomplete
+    product keeps), then triples and embeddings.  Asked of the fully populated repository."""
+    def cat(s, glob=False):
+        return ("leaf", "category", ("glob", s, True, False) if glob else ("exact", s, False), False)
+
+    def pkg(s, glob=False):
+        return ("leaf", "package", ("glob", s, True, False) if glob else ("exact", s, False), False)
+    v1 = ("leaf", "fullver", ("exact", "1", False), False)
+    v2 = ("leaf", "fullver", ("exact", "2", False), False)
+
+    def g(*alts):
+        return ("node", "or", False, list(alts))
+    groups = [g(cat("a"), v1), g(v1, cat("a")), g(pkg("x"), pkg("y")), g(pkg("x"), v2), g(v2, pkg("x")),
+              g(cat("a"), cat("b")), g(cat("a"), pkg("x")), g(pkg("z"), cat("ba")),
+              g(("node", "and", False, [cat("a"), pkg("x")]), v1), g(cat("b", True), v1, pkg("yx")),
+              g(("atom", "ab/xy"), pkg("y")), g(("neg", cat("a")), pkg("x")), g(cat("ab"), ("always", True)),
+              g(pkg("x", True), cat("b"), v2)]
+    pairs = [("node", "and", False, [a, b]) for a in groups for b in groups if a is not b]
+    triples = [("node", "and", False, [groups[i], groups[j], groups[k]])
+               for i, j, k in ((0, 2, 5), (2, 0, 3), (5, 3, 1), (6, 7, 0), (3, 6, 2), (9, 2, 0), (4, 5, 8),
+                               (13, 0, 2), (2, 5, 0), (7, 1, 3), (10, 0, 4), (11, 1, 2))]
+    embedded = [("node", "or", False, [t, pkg("z")]) for t in pairs[:40:3]] + \
+               [("node", "and", False, [t, v2]) for t in pairs[1:60:4]] + \
+               [("node", "and", False, [("node", "and", False, [groups[0], groups[2]]), groups[5]]),
+                ("node", "and", False, [groups[3], ("node", "and", False, [groups[1], groups[6]])])]
+    return pairs, triples + embedded
+
+
+def gen_and_of_groups(rng):
+    """random AND of 2-3 OR groups of 2-3 mixed alternatives (possibly small ANDs), with an optional
+    plain conjunct"""
+    def alt():
+        k = rng.random()
+        if k < 0.7:
+            return gen_leaf(rng)
+        if k < 0.85:
+            return ("node", "and", False, [gen_leaf(rng), gen_leaf(rng)])
+        if k < 0.93:
+            return gen_atom(rng)
+        return ("always", True)
+    kids = [("node", "or", False, [alt() for _ in range(rng.choice([2, 2, 3]))]) for _ in range(rng.choice([2, 2, 3]))]
+    if rng.random() < 0.3:
+        kids.insert(rng.randrange(len(kids) + 1), gen_leaf(rng))
+    return ("node", "and", False, kids)
+
+
 def flat_and(node):
     """conjuncts of an un-negated AND with nested un-negated ANDs opened and atoms replaced by
     their exact category/package leaves"""
@@ -460,7 +515,7 @@ def main(chk: Check):
             j = json.loads(f.read_text())
             descs.append(("corpus", j["repos"], _untuple(j["tree"])))
     shapes = shape_trees()
-    n_shapes = chk.n(300, len(shapes))
+    n_shapes = chk.n(250, len(shapes))
     if os.environ.get("VERIF_C08_CAP"):
         n_shapes = min(n_shapes, max(60, int(os.environ["VERIF_C08_CAP"])))
     if n_shapes < len(shapes):
@@ -477,7 +532,20 @@ def main(chk: Check):
         n_others = min(n_others, 50)
     for t in primary + (others if n_others >= len(others) else rng.sample(others, n_others)):
         descs.append(("ladder", FULL, t))
-    n_random = chk.n(450, 6000)
+    cpairs, cmore = cross_trees()
+    n_cp, n_cm = chk.n(55, len(cpairs)), chk.n(15, len(cmore))
+    if os.environ.get("VERIF_C08_CAP"):
+        n_cp, n_cm = min(n_cp, 55), min(n_cm, 15)
+    for t in (cpairs[:13] + rng.sample(cpairs[13:], n_cp - 13) if n_cp < len(cpairs) else cpairs) + \
+             (rng.sample(cmore, n_cm) if n_cm < len(cmore) else cmore):
+        descs.append(("cross", FULL, t))
+    n_groups = chk.n(60, 1500)
+    if os.environ.get("VERIF_C08_CAP"):
+        n_groups = min(n_groups, 60)
+    for _ in range(n_groups):
+        descs.append(("cross", FULL if rng.random() < 0.3 else [gen_repo(rng) for _ in range(rng.choice([1, 2]))],
+                      gen_and_of_groups(rng)))
+    n_random = chk.n(400, 6000)
     if os.environ.get("VERIF_C08_CAP"):      # self-test aid: bound the escalated budget
         n_random = min(n_random, int(os.environ["VERIF_C08_CAP"]))
     for _ in range(n_random):
